@@ -574,6 +574,67 @@ fn complex_space(ctx: &Ctx, n: usize, full: bool) {
     );
 }
 
+/// Complex<f64> 2x2 matrices diag(rho) * A0, A0 over Gaussian-integer letters, rho a power of two up to 2^+-480:
+/// determinant = rho_0 rho_1 det(A0) and inverse = A0^-1 diag(1/rho) are known exactly and all are representable
+fn complex_scaled_space(ctx: &Ctx) {
+    let n = 2usize;
+    let letters = cletters(true);
+    let l = letters.len() as u64;
+    let rhos = [2f64.powi(-480), 2f64.powi(-340), 1.0, 2f64.powi(342), 2f64.powi(480)];
+    let per = pow(rhos.len() as u64, n as u32);
+    ctx.lattice(
+        &format!("Complex<f64> n=2 over {} Gaussian-integer letters x row scales {{2^-480,2^-340,1,2^342,2^480}}^2: determinant and inverse", l),
+        pow(l, 4) * per,
+        |idx| format!("matrix#{} scales#{}", idx / per, idx % per),
+        |idx, acc| {
+            let mut d = vec![0usize; 4];
+            digits_uniform(idx / per, l, &mut d);
+            let mut rd = vec![0usize; 2];
+            digits_uniform(idx % per, rhos.len() as u64, &mut rd);
+            let aq: Vec<Vec<CQ>> = (0..n).map(|i| (0..n).map(|j| letters[d[i * n + j]].1).collect()).collect();
+            let dq = model::det_cq(&aq);
+            let mut am = Matrix::<Cmplx>::new(n, n, Cmplx::new(0.0, 0.0));
+            for i in 0..n {
+                for j in 0..n {
+                    let z = letters[d[i * n + j]].0;
+                    am[(i, j)] = Cmplx::new(z.real * rhos[rd[i]], z.imag * rhos[rd[i]]);
+                }
+            }
+            if rd.iter().any(|&k| k != 2) {
+                acc.nontriv("matrix with a row scale beyond 2^+-340");
+            }
+            let key = || format!("complex scaled A0={:?} row scales={:?}", aq.iter().map(|r| r.iter().map(|z| (z.re.to_f64(), z.im.to_f64())).collect::<Vec<_>>()).collect::<Vec<_>>(), rd.iter().map(|&k| rhos[k]).collect::<Vec<f64>>());
+            let res = catch(|| -> Result<(), String> {
+                let got = am.determinant();
+                // dividing by the two row scales one after the other is exact
+                let (gr, gi) = (got.real / rhos[rd[0]] / rhos[rd[1]], got.imag / rhos[rd[0]] / rhos[rd[1]]);
+                let err = (gr - dq.re.to_f64()).hypot(gi - dq.im.to_f64());
+                ensure!(err <= 1e-12, "determinant / (rho_0 rho_1) = ({:e}, {:e}) but det(A0) = ({}, {})", gr, gi, dq.re, dq.im);
+                if dq.is_zero() {
+                    return Ok(());
+                }
+                let inv = am.inverse();
+                // exact inverse of A0: adj / det
+                let adj = [[aq[1][1], aq[0][1].neg()], [aq[1][0].neg(), aq[0][0]]];
+                for i in 0..n {
+                    for j in 0..n {
+                        let e = adj[i][j].div(dq);
+                        let (re, im) = (inv[(i, j)].real * rhos[rd[j]], inv[(i, j)].imag * rhos[rd[j]]);
+                        let err = (re - e.re.to_f64()).hypot(im - e.im.to_f64());
+                        ensure!(err <= 1e-12, "inverse[({},{})] * rho_{} = ({:e}, {:e}) but the exact value is ({}, {})", i, j, j, re, im, e.re, e.im);
+                    }
+                }
+                Ok(())
+            });
+            match res {
+                Ok(Ok(())) => {}
+                Ok(Err(e)) => acc.fail(idx, key(), e),
+                Err(p) => acc.fail(idx, key(), format!("unexpected panic: {}", p)),
+            }
+        },
+    );
+}
+
 fn main() {
     let ctx = Ctx::from_args("C02");
     ctx.level("exploration");
@@ -608,18 +669,19 @@ fn main() {
     complex_space(&ctx, 1, true);
     complex_space(&ctx, 2, true);
     complex_space(&ctx, 3, false);
+    complex_scaled_space(&ctx);
     if ctx.thorough() {
         exact_space(&ctx, 3, z5(), "{0,1,-1,2,-2}");
         f64_space(&ctx, 3, z5(), "{0,1,-1,2,-2}");
         exact_space(&ctx, 4, z3(), "{0,1,-1}");
         f64_space(&ctx, 4, z3(), "{0,1,-1}");
     }
-    // Known findings: (1) Complex<f64> determinant / inverse beyond |z| ~ 1e154 / below ~ 1e-154 (unscaled Complex::abs and complex
-    // division, see C01); (2) the f64 determinant is the running product of the pivots, which over- or underflows although
+    // (1) Complex<f64> determinant / inverse beyond |z| ~ 1e154 / below ~ 1e-154 (unscaled Complex::abs and complex division, see
+    // C01): repaired (9c56103, 8d587e4), demanded now. Known findings: (2) the f64 determinant is the running product of the pivots, which over- or underflows although
     // the determinant itself is representable. Repairing (2) means carrying a scaled product (mantissa / exponent): not a small patch.
     {
-        ctx.known_cases(
-            "listed inputs: determinants / inverses whose intermediate quantities leave the double range",
+        ctx.listed_cases(
+            "listed inputs: Complex<f64> determinants / inverses of extreme magnitude (bug-hunt inputs, repaired by 8d587e4)",
             vec![
                 ("extreme-complex determinant [[1e-170,1],[1e-170,2]]".to_string(), Box::new(|| {
                     let z = |re: f64| Cmplx::new(re, 0.0);
@@ -638,6 +700,27 @@ fn main() {
                     ensure!((inv[(0, 0)].real - 1e-200).abs() <= 1e-212 && inv[(0, 0)].imag == 0.0, "inverse = {:?} but the exact value is 1e-200", inv[(0, 0)]);
                     Ok(())
                 })),
+                ("extreme-complex inverse [[2^342,2^342],[0,2^-342]]".to_string(), Box::new(|| {
+                    // every entry within 1e-103..1e103; the old back substitution formed 6e205 * pivot inside the complex quotient
+                    let (s, t) = (2f64.powi(342), 2f64.powi(-342));
+                    let mut a = Matrix::<Cmplx>::new(2, 2, Cmplx::new(0.0, 0.0));
+                    a[(0, 0)] = Cmplx::new(s, 0.0);
+                    a[(0, 1)] = Cmplx::new(s, 0.0);
+                    a[(1, 1)] = Cmplx::new(t, 0.0);
+                    let inv = a.inverse();
+                    let want = [[t, -s], [0.0, s]];
+                    for i in 0..2 {
+                        for j in 0..2 {
+                            ensure!(inv[(i, j)].real == want[i][j] && inv[(i, j)].imag == 0.0, "inverse[({},{})] = {:?} but the exact value is {:e}", i, j, inv[(i, j)], want[i][j]);
+                        }
+                    }
+                    Ok(())
+                })),
+            ],
+        );
+        ctx.known_cases(
+            "listed inputs: f64 determinants / inverses whose intermediate quantities leave the double range",
+            vec![
                 ("partial-product determinant diag(1e200, 1e200, 1e-300)".to_string(), Box::new(|| {
                     let mut a = Matrix::<f64>::new(3, 3, 0.0);
                     a[(0, 0)] = 1e200;
@@ -654,6 +737,26 @@ fn main() {
                     a[(2, 2)] = 1e300;
                     let d = a.determinant();
                     ensure!((d - 1e-100).abs() <= 1e-112, "determinant = {:e} but the exact value is 1e-100 (the matrix is nonsingular)", d);
+                    Ok(())
+                })),
+                ("multiplier-underflow determinant [[2^600,2^900],[2^-600,3*2^-300]]".to_string(), Box::new(|| {
+                    let mut a = Matrix::<f64>::new(2, 2, 0.0);
+                    a[(0, 0)] = 2f64.powi(600);
+                    a[(0, 1)] = 2f64.powi(900);
+                    a[(1, 0)] = 2f64.powi(-600);
+                    a[(1, 1)] = 3.0 * 2f64.powi(-300);
+                    let d = a.determinant();
+                    ensure!(d == 2f64.powi(301), "determinant = {:e} but the exact value is 2^301 = {:e} (ad - bc is exact in f64)", d, 2f64.powi(301));
+                    Ok(())
+                })),
+                ("intermediate-overflow inverse [[2^515,2^515],[0,2^-515]]".to_string(), Box::new(|| {
+                    let (s, t) = (2f64.powi(515), 2f64.powi(-515));
+                    let mut a = Matrix::<f64>::new(2, 2, 0.0);
+                    a[(0, 0)] = s;
+                    a[(0, 1)] = s;
+                    a[(1, 1)] = t;
+                    let inv = a.inverse();
+                    ensure!(inv[(0, 0)] == t && inv[(0, 1)] == -s && inv[(1, 0)] == 0.0 && inv[(1, 1)] == s, "inverse = [[{:e}, {:e}], [{:e}, {:e}]] but the exact value is [[t, -s], [0, s]]", inv[(0, 0)], inv[(0, 1)], inv[(1, 0)], inv[(1, 1)]);
                     Ok(())
                 })),
             ],
